@@ -1416,6 +1416,208 @@ class _Accessors(ast.NodeTransformer):
         return node
 
 
+def erase_new_records(prog, known):
+    """A record type that is not in the reference tree (`class NetlinkMessage(NamedTuple)` introduced for a tuple that used to be
+    returned bare) is erased again: `R(a, b, c)` is the tuple `(a, b, c)` and `x.field` - where x is known to hold an R - is `x[i]`.
+    What holds an R is inferred without types: a construction, the result of a function all of whose returns are Rs (or lists only
+    Rs are appended to), a local bound only to such values, a loop variable over such a list.  A record that has methods attached,
+    is subclassed or is used through _replace / _asdict / _make / isinstance is left alone.  Returns the names erased."""
+    recs = {}
+    for m in prog.modules.values():
+        for st in m.tree.body:
+            if not (isinstance(st, ast.Assign) and len(st.targets) == 1 and isinstance(st.targets[0], ast.Name)
+                    and isinstance(st.value, ast.Call) and ast.unparse(st.value.func).split('.')[-1] == 'namedtuple'
+                    and len(st.value.args) == 2 and isinstance(st.value.args[0], ast.Constant)):
+                continue
+            name = st.targets[0].id
+            fa = st.value.args[1]
+            if isinstance(fa, (ast.List, ast.Tuple)) and all(isinstance(x, ast.Constant) and isinstance(x.value, str) for x in fa.elts):
+                fields = [x.value for x in fa.elts]
+            elif isinstance(fa, ast.Constant) and isinstance(fa.value, str):
+                fields = fa.value.replace(',', ' ').split()
+            else:
+                continue
+            defaults = []
+            for kw in st.value.keywords:
+                if kw.arg == 'defaults' and isinstance(kw.value, (ast.List, ast.Tuple)):
+                    defaults = list(kw.value.elts)
+            if '%s.%s' % (m.name, name) in known or name in recs:
+                recs[name] = None if name in recs else recs.get(name)
+                continue
+            recs[name] = (m, fields, defaults, st)
+    recs = {k: v for k, v in recs.items() if v}
+    if not recs:
+        return []
+    trees = [m.tree for m in prog.modules.values()]
+    # uses that need the record type itself
+    for t in trees:
+        for x in ast.walk(t):
+            if isinstance(x, ast.Attribute) and isinstance(x.value, ast.Name) and x.value.id in recs and isinstance(x.ctx, ast.Store):
+                recs.pop(x.value.id, None)
+            if isinstance(x, ast.Attribute) and x.attr in ('_make', '_fields', '_field_defaults') and isinstance(x.value, ast.Name):
+                recs.pop(x.value.id, None)
+            if isinstance(x, ast.ClassDef) and any(ast.unparse(b).split('.')[-1] in recs for b in x.bases):
+                for b in x.bases:
+                    recs.pop(ast.unparse(b).split('.')[-1], None)
+            if isinstance(x, ast.Call) and isinstance(x.func, ast.Name) and x.func.id in ('isinstance', 'type'):
+                for y in ast.walk(x):
+                    if isinstance(y, ast.Name) and y.id in recs:
+                        recs.pop(y.id, None)
+    if not recs:
+        return []
+    funcs = {}
+    for t in trees:
+        for x in ast.walk(t):
+            if isinstance(x, ast.FunctionDef):
+                funcs.setdefault(x.name, []).append(x)
+    rtype = {}        # id(FunctionDef) -> 'R' | ('list', 'R')
+
+    def typ(e, env):
+        if isinstance(e, ast.Call):
+            f = e.func
+            name = f.id if isinstance(f, ast.Name) else f.attr if isinstance(f, ast.Attribute) else None
+            if name in recs and (isinstance(f, ast.Name) or isinstance(f.value, ast.Name)):
+                return name
+            if name in funcs:
+                ts = {rtype.get(id(fn)) for fn in funcs[name]}
+                if len(ts) == 1:
+                    return ts.pop()
+            return None
+        if isinstance(e, ast.Name):
+            return env.get(e.id)
+        if isinstance(e, ast.Subscript) and not isinstance(e.slice, ast.Slice):
+            t = typ(e.value, env)
+            return t[1] if isinstance(t, tuple) else None
+        if isinstance(e, ast.Subscript):
+            t = typ(e.value, env)
+            return t if isinstance(t, tuple) else None
+        return None
+
+    def local_env(fn):
+        env = {}
+        own = [x for x in ast.walk(fn)]
+        for _ in range(3):
+            seen = {}
+
+            def bind(name, t):
+                seen.setdefault(name, set()).add(t)
+            for x in own:
+                if isinstance(x, ast.Assign):
+                    for tg in x.targets:
+                        if isinstance(tg, ast.Name):
+                            if isinstance(x.value, ast.List) and not x.value.elts:
+                                bind(tg.id, ('empty',))
+                            else:
+                                bind(tg.id, typ(x.value, env))
+                        else:
+                            for y in ast.walk(tg):
+                                if isinstance(y, ast.Name) and isinstance(y.ctx, ast.Store):
+                                    bind(y.id, None)
+                elif isinstance(x, (ast.For, ast.comprehension)):
+                    t = typ(x.iter, env)
+                    if isinstance(x.target, ast.Name):
+                        bind(x.target.id, t[1] if isinstance(t, tuple) and t[0] == 'list' else None)
+                    else:
+                        for y in ast.walk(x.target):
+                            if isinstance(y, ast.Name):
+                                bind(y.id, None)
+                elif isinstance(x, (ast.AugAssign, ast.AnnAssign, ast.NamedExpr)) and isinstance(x.target, ast.Name):
+                    bind(x.target.id, None)
+                elif isinstance(x, ast.withitem) and x.optional_vars is not None:
+                    for y in ast.walk(x.optional_vars):
+                        if isinstance(y, ast.Name):
+                            bind(y.id, None)
+                elif isinstance(x, ast.Call) and isinstance(x.func, ast.Attribute) and x.func.attr == 'append' \
+                        and isinstance(x.func.value, ast.Name) and len(x.args) == 1:
+                    t = typ(x.args[0], env)
+                    bind(x.func.value.id, ('list', t) if isinstance(t, str) else None)
+            for a in fn.args.args + fn.args.kwonlyargs + fn.args.posonlyargs:
+                bind(a.arg, None)
+            new = {}
+            for name, ts in seen.items():
+                ts = ts - {('empty',)}
+                if len(ts) == 1 and None not in ts:
+                    new[name] = next(iter(ts))
+            if new == env:
+                break
+            env = new
+        return env
+    for _ in range(4):
+        changed = False
+        for fns in funcs.values():
+            for fn in fns:
+                env = local_env(fn)
+                rets = [x for x in ast.walk(fn) if isinstance(x, ast.Return)]
+                ts = {typ(r.value, env) if r.value is not None else None for r in rets}
+                t = next(iter(ts)) if len(ts) == 1 else None
+                if t is not None and rtype.get(id(fn)) != t:
+                    rtype[id(fn)] = t
+                    changed = True
+        if not changed:
+            break
+    # a record whose values are copied with _replace / _asdict stays a record
+    for fns in funcs.values():
+        for fn in fns:
+            env = local_env(fn)
+            for x in ast.walk(fn):
+                if isinstance(x, ast.Attribute) and x.attr in ('_replace', '_asdict'):
+                    t = typ(x.value, env)
+                    recs.pop(t if isinstance(t, str) else None, None)
+    if not recs:
+        return []
+    # ---- rewrite
+    erased = set()
+    for fns in funcs.values():
+        for fn in fns:
+            env = local_env(fn)
+
+            class R(ast.NodeTransformer):
+                def visit_Attribute(s_, node):
+                    s_.generic_visit(node)
+                    if isinstance(node.ctx, ast.Load):
+                        t = typ(node.value, env)
+                        if isinstance(t, str) and t in recs and node.attr in recs[t][1]:
+                            erased.add(t)
+                            return ast.copy_location(ast.Subscript(value=node.value, slice=ast.Constant(value=recs[t][1].index(node.attr)),
+                                                                   ctx=ast.Load()), node)
+                    return node
+            R().visit(fn)
+            ast.fix_missing_locations(fn)
+    ok = set(recs)
+
+    class C(ast.NodeTransformer):
+        def visit_Call(s_, node):
+            s_.generic_visit(node)
+            f = node.func
+            name = f.id if isinstance(f, ast.Name) else f.attr if isinstance(f, ast.Attribute) and isinstance(f.value, ast.Name) else None
+            if name in recs and name in ok:
+                fields, defaults = recs[name][1], recs[name][2]
+                vals = dict(zip(fields, node.args))
+                if any(isinstance(a, ast.Starred) for a in node.args) or len(node.args) > len(fields):
+                    ok.discard(name)
+                    return node
+                for kw in node.keywords:
+                    if kw.arg is None or kw.arg not in fields or kw.arg in vals:
+                        ok.discard(name)
+                        return node
+                    vals[kw.arg] = kw.value
+                for f_, d in zip(fields[len(fields) - len(defaults):], defaults):
+                    vals.setdefault(f_, copy.deepcopy(d))
+                if set(vals) != set(fields):
+                    ok.discard(name)
+                    return node
+                erased.add(name)
+                return ast.copy_location(ast.Tuple(elts=[vals[f_] for f_ in fields], ctx=ast.Load()), node)
+            return node
+    for t in trees:
+        C().visit(t)
+        ast.fix_missing_locations(t)
+    for name, (m, fields, defaults, st) in recs.items():
+        if name in ok and not any(isinstance(x, ast.Name) and x.id == name and isinstance(x.ctx, ast.Load) for t in trees for x in ast.walk(t)):
+            m.tree.body.remove(st)
+    return sorted(erased)
+
+
 def inline_new_constants(prog, known):
     """module-level and class-level names that are not in the reference tree and are bound once to a constant display are
     replaced by that display wherever they are read (so `_HEADER_FORMAT = '>8s8s4B2L'` ... `unpack_from(_HEADER_FORMAT, data)`
@@ -1903,6 +2105,9 @@ class Inliner:
                 k = unroll_literal_loops(fi.node)
                 if k:
                     self.report.setdefault('unrolled_literal_loops', {})[q] = k
+        self.report['erased_records'] = erase_new_records(prog, known_constants())
+        if self.report['erased_records']:
+            prog.reindex()
         self.report['inlined_constants'] = inline_new_constants(prog, known_constants())
         if self.report['inlined_constants']:
             for q, fi in prog.functions.items():
